@@ -1,6 +1,17 @@
 use std::collections::VecDeque;
+#[cfg(tiny_http_verif)]
+use simrt::sync::atomic::{AtomicUsize, Ordering};
+#[cfg(tiny_http_verif)]
+use simrt::sync::{Condvar, Mutex};
+#[cfg(tiny_http_verif)]
+use simrt::thread;
+#[cfg(not(tiny_http_verif))]
 use std::sync::atomic::{AtomicUsize, Ordering};
+#[cfg(tiny_http_verif)]
+use std::sync::Arc;
+#[cfg(not(tiny_http_verif))]
 use std::sync::{Arc, Condvar, Mutex};
+#[cfg(not(tiny_http_verif))]
 use std::thread;
 use std::time::Duration;
 
